@@ -176,14 +176,15 @@ def potDense (first : List Val) (k : Nat) : Bool :=
   | some v => v.numOrNil
   | none => false
 
-/-- `Scale.filter` on dense contexts -/
+/-- the application loop on one dense context, given the first context and the fitting window -/
+def denseRow (sd : List Rat → Rat) (cfg : Cfg) (first : List Val) (fitting : List (List Val)) (row : List Val) : List Val :=
+  row.mapIdx (fun k v => applyOpt (if potDense first k then fit sd cfg (col k fitting) else none) v)
+
+/-- `Scale.filter` on dense contexts: fit on the window, then transform every interaction -/
 def scaleDense (sd : List Rat → Rat) (cfg : Cfg) (rows : List (List Val)) : List (List Val) :=
   match rows with
   | [] => []
-  | first :: _ =>
-    let fitting := window cfg.usingN rows
-    rows.map (fun row => row.mapIdx (fun k v =>
-      applyOpt (if potDense first k then fit sd cfg (col k fitting) else none) v))
+  | first :: _ => rows.map (denseRow sd cfg first (window cfg.usingN rows))
 
 abbrev SCtx := List (String × Val)
 
@@ -204,16 +205,17 @@ inductive Err where
   | cobaException
   deriving DecidableEq, Repr
 
+/-- the application loop on one sparse context -/
+def sparseRow (sd : List Rat → Rat) (cfg : Cfg) (first : SCtx) (fitting : List SCtx) (c : SCtx) : SCtx :=
+  c.map (fun kv => (kv.1, applyOpt (if potSparse first fitting kv.1 then fit sd cfg (fitting.map (getD0 kv.1)) else none) kv.2))
+
 /-- `Scale.filter` on sparse contexts (`shift` must be 0) -/
 def scaleSparse (sd : List Rat → Rat) (cfg : Cfg) (rows : List SCtx) : Except Err (List SCtx) :=
   match rows with
   | [] => .ok []
   | first :: _ =>
     if cfg.shift ≠ .num 0 then .error .cobaException
-    else
-      let fitting := window cfg.usingN rows
-      .ok (rows.map (fun c => c.map (fun kv =>
-        (kv.1, applyOpt (if potSparse first fitting kv.1 then fit sd cfg (fitting.map (getD0 kv.1)) else none) kv.2))))
+    else .ok (rows.map (sparseRow sd cfg first (window cfg.usingN rows)))
 
 /-- `Scale.filter` on scalar contexts -/
 def scaleScalar (sd : List Rat → Rat) (cfg : Cfg) (rows : List Val) : List Val :=
@@ -267,15 +269,16 @@ def denseBins (st : Stat) (ind : Bool) (first : List Val) (win : List (List Val)
     (denseImp st first win k).isSome && (col k win).any Val.isNil)
   else []
 
+/-- the application loop of `Impute.filter` on one dense context -/
+def imputeDenseRow (st : Stat) (ind : Bool) (first : List Val) (win : List (List Val)) (row : List Val) : List Val :=
+  row.mapIdx (fun k v => imputeCell (denseImp st first win k) v)
+    ++ (denseBins st ind first win).map (fun k => bit (row[k]? == some Val.nil))
+
 /-- `Impute.filter` on dense contexts -/
 def imputeDense (st : Stat) (ind : Bool) (u : Option Nat) (rows : List (List Val)) : List (List Val) :=
   match rows with
   | [] => []
-  | first :: _ =>
-    let win := window u rows
-    rows.map (fun row =>
-      row.mapIdx (fun k v => imputeCell (denseImp st first win k) v)
-        ++ (denseBins st ind first win).map (fun k => bit (row[k]? == some Val.nil)))
+  | first :: _ => rows.map (imputeDenseRow st ind first (window u rows))
 
 /-- the values of key `k` in the window where present, then a 0 for every context lacking it -/
 def sparseCol (k : String) (win : List SCtx) : List Val :=
@@ -300,15 +303,16 @@ def sparseBins (st : Stat) (ind : Bool) (first : SCtx) (win : List SCtx) : List 
     (sparseImp st first win k).isSome && (win.filterMap (fun c => c.lookup k)).any Val.isNil)
   else []
 
+/-- the application loop of `Impute.filter` on one sparse context -/
+def imputeSparseRow (st : Stat) (ind : Bool) (first : SCtx) (win : List SCtx) (c : SCtx) : SCtx :=
+  c.map (fun kv => (kv.1, imputeCell (sparseImp st first win kv.1) kv.2))
+    ++ (sparseBins st ind first win).map (fun k => (k ++ "_is_missing", bit (c.lookup k == some Val.nil)))
+
 /-- `Impute.filter` on sparse contexts -/
 def imputeSparse (st : Stat) (ind : Bool) (u : Option Nat) (rows : List SCtx) : List SCtx :=
   match rows with
   | [] => []
-  | first :: _ =>
-    let win := window u rows
-    rows.map (fun c =>
-      c.map (fun kv => (kv.1, imputeCell (sparseImp st first win kv.1) kv.2))
-        ++ (sparseBins st ind first win).map (fun k => (k ++ "_is_missing", bit (c.lookup k == some Val.nil))))
+  | first :: _ => rows.map (imputeSparseRow st ind first (window u rows))
 
 /-- result of `Impute.filter` on scalar contexts: scalars, or `[value, indicator]` lists -/
 inductive ScalarOut where
@@ -350,6 +354,16 @@ def scaleCtxs (sd : List Rat → Rat) (cfg : Cfg) : Ctxs → Except Err Ctxs
 
 /-! ### specification -/
 
+/-- the dense embedding of a sparse context over the feature list `keys`: an absent key is the number 0 -/
+def embed (keys : List String) (c : SCtx) : List Val := keys.map (fun k => getD0 k c)
+
+/-- cell `k` of row `i` of a list of dense contexts -/
+def denseCell (rows : List (List Val)) (i k : Nat) : Option Val := (rows[i]?).bind (fun r => r[k]?)
+
+/-- the value under key `k` in row `i` of a list of sparse contexts -/
+def sparseCell (rows : List SCtx) (i : Nat) (k : String) : Option Val := (rows[i]?).bind (fun c => c.lookup k)
+
+
 /-- `m` is the least element of `xs` -/
 def IsMin (xs : List Rat) (m : Rat) : Prop := m ∈ xs ∧ ∀ x ∈ xs, m ≤ x
 /-- `m` is the greatest element of `xs` -/
@@ -367,14 +381,17 @@ def IsMedian (xs : List Rat) (m : Rat) : Prop :=
     ((s.length % 2 = 1 ∧ s[s.length / 2]? = some m) ∨
      (s.length % 2 = 0 ∧ ∃ a b, s[s.length / 2 - 1]? = some a ∧ s[s.length / 2]? = some b ∧ m = (a + b) / 2))
 
-/-- the `p`-quantile of `xs` by linear interpolation between closest ranks (numpy's default):
-with `h = p·(n−1)`, `I = ⌊h⌋`: `s[I] + (h−I)·(s[I+1]−s[I])` on the sorted data `s` -/
+/-- linear interpolation between closest ranks on sorted data `s` (numpy's default quantile):
+with `h = p·(n−1)` and `I = ⌊h⌋` the value is `s[I]` if `h = I`, else `s[I] + (h−I)·(s[I+1]−s[I])` -/
+def Interp (s : List Rat) (p q : Rat) : Prop :=
+  let h : Rat := p * ((s.length : Rat) - 1)
+  let I : Nat := h.floor.toNat
+  ∃ a, s[I]? = some a ∧
+    ((h = (I : Rat) ∧ q = a) ∨ (∃ b, s[I + 1]? = some b ∧ q = a + (h - (I : Rat)) * (b - a)))
+
+/-- `q` is the `p`-quantile of the data `xs` -/
 def IsQuantile (xs : List Rat) (p : Rat) (q : Rat) : Prop :=
-  ∃ s : List Rat, s.Perm xs ∧ Sorted s ∧
-    let h : Rat := p * ((s.length : Rat) - 1)
-    let I : Nat := h.floor.toNat
-    ∃ a, s[I]? = some a ∧
-      ((h = (I : Rat) ∧ q = a) ∨ (∃ b, s[I + 1]? = some b ∧ q = a + (h - (I : Rat)) * (b - a)))
+  ∃ s : List Rat, s.Perm xs ∧ Sorted s ∧ Interp s p q
 
 /-- the documented shift statistic of the data `xs` (what is added to every value) -/
 def ShiftStat (sh : Shift) (xs : List Rat) (s : Rat) : Prop :=
